@@ -152,3 +152,104 @@ func runX6(c *core.Ctx) {
 		c.Undecided("api/index-after-len", token.NoPos, "no constant index on a raw-input parameter found")
 	}
 }
+
+// E8: only syntax (and reader) errors end a stream. The error of Decoder.Decode on one framed
+// value may be a type mismatch or come from a user Unmarshaler: decoding value by value goes on
+// behind it, so the stream decoder must not record it as its permanent error.
+
+func init() {
+	register(&core.Rule{ID: "E8", Min: 1, Arm64: true,
+		Doc: "StreamDecoder.Decode records the error of the embedded Decoder.Decode as the stream's permanent error (setErr) only under a type test for SyntaxError; an unconditional setErr(err) makes a type mismatch on one value swallow every later value.",
+		Run: runE8})
+}
+
+func runE8(c *core.Ctx) {
+	p := c.Prog
+	pk := p.Pkg("internal/decoder/api")
+	fd := core.FuncDecl(pk, "StreamDecoder", "Decode")
+	cn := "internal/decoder/api.(StreamDecoder).Decode/permanent-error"
+	if fd == nil || fd.Body == nil {
+		c.Undecided(cn, token.NoPos, "not found")
+		return
+	}
+	c.Analysed(core.FuncName(pk, fd))
+	// the variable assigned from self.Decoder.Decode(val)
+	var errObj types.Object
+	ast.Inspect(fd.Body, func(n ast.Node) bool {
+		as, ok := n.(*ast.AssignStmt)
+		if !ok || len(as.Rhs) != 1 || len(as.Lhs) != 1 {
+			return true
+		}
+		if call, ok := as.Rhs[0].(*ast.CallExpr); ok {
+			if se, ok := call.Fun.(*ast.SelectorExpr); ok && se.Sel.Name == "Decode" && strings.HasSuffix(exprStr(se.X), "Decoder") {
+				if id, ok := as.Lhs[0].(*ast.Ident); ok {
+					errObj = p.ObjectOf(id)
+				}
+			}
+		}
+		return true
+	})
+	if errObj == nil {
+		c.Undecided(cn, fd.Pos(), "the result of Decoder.Decode is not assigned to a variable")
+		return
+	}
+	var stack []ast.Node
+	sites, bad := 0, token.NoPos
+	ast.Inspect(fd.Body, func(n ast.Node) bool {
+		if n == nil {
+			stack = stack[:len(stack)-1]
+			return true
+		}
+		stack = append(stack, n)
+		call, ok := n.(*ast.CallExpr)
+		if !ok || len(call.Args) != 1 {
+			return true
+		}
+		se, ok := call.Fun.(*ast.SelectorExpr)
+		if !ok || se.Sel.Name != "setErr" {
+			return true
+		}
+		id, ok := ast.Unparen(call.Args[0]).(*ast.Ident)
+		if !ok || p.ObjectOf(id) != errObj {
+			return true
+		}
+		sites++
+		guarded := false
+		for _, a := range stack {
+			switch x := a.(type) {
+			case *ast.IfStmt:
+				hit := false
+				ast.Inspect(x, func(y ast.Node) bool {
+					if y == x.Body || y == x.Else {
+						return false
+					}
+					if ta, ok := y.(*ast.TypeAssertExpr); ok && ta.Type != nil && strings.Contains(exprStr(ta.Type), "SyntaxError") {
+						hit = true
+					}
+					return true
+				})
+				if hit {
+					guarded = true
+				}
+			case *ast.CaseClause:
+				for _, e := range x.List {
+					if strings.Contains(exprStr(e), "SyntaxError") {
+						guarded = true
+					}
+				}
+			}
+		}
+		if !guarded && bad == token.NoPos {
+			bad = call.Pos()
+		}
+		return true
+	})
+	switch {
+	case bad != token.NoPos:
+		c.Bad(cn, bad, "every error of Decoder.Decode is recorded as the stream's permanent error: after a type mismatch (or an error returned by a user Unmarshaler) on one value, all later Decode calls return that error and the values behind it are never delivered; decoding value by value, and encoding/json's stream decoder, go on")
+	case sites == 0:
+		c.OK(cn, fd.Pos(), "the error of Decoder.Decode is never recorded as permanent")
+	default:
+		c.OK(cn, fd.Pos(), "setErr(err) after Decoder.Decode only under a SyntaxError type test (%d site(s))", sites)
+	}
+}
